@@ -41,7 +41,7 @@ LEVELS = list(range(3, 13))
 
 def cases(tier, seed):
     out = []
-    reps = 1 if tier == "quick" else 10
+    reps = 1 if tier == "quick" else 30
     for ci, cell in enumerate(zoo.matrix()):
         fams = [n for n, _ in cf.families_for(cell["noise_type"], cell["sde_type"])]
         for fi, fname in enumerate(fams):
